@@ -217,8 +217,13 @@ class Machine:
         self.npool = self.pool.shape[1]
         self.sut = Side(self.spec, ctx, "sut")
         self.twin = Side(self.spec, ctx, "twin") if config.get("twin") else None
+        self.spec["model"] = read_model(self.sut.cs.model)  # normal form for comparisons
+        self.model_at_last_gen = jdump(self.spec["model"])  # what the generator's copy holds
         self.last = None  # ("u", idx) | ("s", sel) | ("c",) : positions currently stored
         self.force_observe = False
+        # True while the next generation is known to start from a freshly seeded random stream
+        # (new object, changed model, new seed): then even the nugget noise equals a fresh object
+        self.rng_fresh = True
 
     def sides(self):
         return [self.sut] + ([self.twin] if self.twin else [])
@@ -445,8 +450,16 @@ class Machine:
             pos, mesh_type, pts, shape, last = self._positions(lay, op)
         seed = op["seed"]
         if "value" in seed:
+            if seed["value"] != self.spec["seed"]:
+                self.rng_fresh = True
             self.spec["seed"] = seed["value"]
         nug = self.spec["model"]["nugget"] > 0
+        # the generator compares the model with its private copy when it is called: a change
+        # that was undone in the meantime is no change
+        if jdump(self.spec["model"]) != self.model_at_last_gen:
+            self.rng_fresh = True
+        self.model_at_last_gen = jdump(self.spec["model"])
+        rng_fresh, self.rng_fresh = self.rng_fresh, False
         post = bool(op["post"])
         results = []
         failed = False
@@ -496,6 +509,8 @@ class Machine:
         if failed:
             self.ctx.probe("call_failed_midway")
             self.pending = ["set_condition", "gen"]
+            self.rng_fresh = False
+            self.model_at_last_gen = jdump(self.spec["model"])
             # the twin did not fail: bring it to the same abstract state is not possible in
             # general (partial stores); from here on the twin is dropped for this run
             self.twin = None
@@ -525,6 +540,11 @@ class Machine:
             st = self._stale_parts(cs, fresh, op)
             if st:
                 raise Violation("C07.fresh_equal.parts", layout=lay, stale=st)
+            if rng_fresh:
+                self.ctx.probe("nugget_noise_compared_with_fresh")
+                if not close(res, fres, rtol=self.tol):
+                    raise Violation("C07.fresh_equal.nugget_noise", layout=lay,
+                                    maxdiff=maxdiff(res, fres))
         # ---- defining formula (nugget free): K + sqrt(V/var) U, then mean/norm/trend
         if not nug:
             self._check_formula(res, pts, shape, mesh_type, post, fpos)
@@ -771,7 +791,11 @@ class Machine:
             # equally valid refresh: hand the (unchanged) conditioning values over again
             vals = np.array(self.spec["cond"]["val"], dtype=np.double)
             for s in self.sides():
-                s.cs.krige.set_condition(cond_val=vals.copy())
+                try:
+                    s.cs.krige.set_condition(cond_val=vals.copy())
+                except cm.CallbackFault:
+                    self.ctx.probe("set_condition_failed_and_repeated")
+                    s.cs.krige.set_condition(cond_val=vals.copy())
             self.ctx.probe("refresh_by_values")
             return
         for s in self.sides():
@@ -801,7 +825,8 @@ class Machine:
                 setattr(target, p[4:] if p.startswith("opt:") else p, v)
             except ValueError as e:
                 raise Inapplicable("setter rejected: %s" % e)
-        self.spec["model"] = read_model(getattr(self.sut, "model_ref", None) or self.sut.cs.model)
+        newspec = read_model(getattr(self.sut, "model_ref", None) or self.sut.cs.model)
+        self.spec["model"] = newspec
         self._refresh(op.get("refresh", "noarg"))
 
     def _op_assign_model(self, op):
@@ -812,7 +837,8 @@ class Machine:
         for s in self.sides():
             s.model_ref = cm.build_model(new)   # the user keeps a reference to what he assigns
             s.cs.model = s.model_ref
-        self.spec["model"] = read_model(self.sut.model_ref)
+        newspec = read_model(self.sut.model_ref)
+        self.spec["model"] = newspec
         self._refresh()
 
     def _op_assign_post(self, op):
@@ -881,6 +907,8 @@ class Machine:
                 s.cs.generator.seed = so
             else:
                 s.cs.generator.reset_seed(so)
+        if op["how"] != "seed_attr" or op["value"] != self.spec["seed"]:
+            self.rng_fresh = True
         self.spec["seed"] = op["value"]
 
     def _apply_fault(self, op):
@@ -906,6 +934,7 @@ class Machine:
             for s in self.sides():
                 setattr(s.cs.model, p, op["repair"])
             self.spec["model"] = read_model(self.sut.cs.model)
+            self.rng_fresh = False  # whether the generator saw the rejected value is not defined
             self._refresh()
         elif f == "callback_raise":
             fn = self.sut.fns.get(op["what"])
